@@ -208,6 +208,11 @@ func (s *scen) genRequest(out string) sim.RequestSpec {
 		spec.Final = s.cl.Head
 	case 1, 2:
 		spec.Preload = true
+	case 3:
+		spec.Stop = 0 // open-ended: runs until the chain's last block (the server needs a live feed, i.e. a known final block)
+		if spec.Final == 0 {
+			spec.Final = s.cl.Head
+		}
 	}
 	return spec
 }
@@ -300,6 +305,9 @@ func runStrategyScenario(c *fw.Case, prop string) {
 		}
 		if spec.Preload {
 			c.Count("requests_with_walker_preload", 1)
+		}
+		if spec.Stop == 0 {
+			c.Count("requests_open_ended", 1)
 		}
 		c.Count("tier2_jobs", int64(len(res.Jobs)))
 		if res.Err != nil {
